@@ -280,3 +280,16 @@ pub fn dirty_destinations(kit: &Kit) -> Vec<Ciphertext> {
     }
     v
 }
+
+/// A destination "like" the operand but wrong in one respect, without needing a Kit: variant 0 = one polynomial more at the same
+/// level, 1 = same size and level with the representation flag flipped and stale scale / BGV factor, 2 = fresh. The data words
+/// are junk below 2^20 (an output parameter's old contents are irrelevant by contract).
+pub fn dirty_like(ct: &Ciphertext, salt: u64) -> Ciphertext {
+    let k = ct.coeff_modulus_size();
+    let n = ct.poly_modulus_degree();
+    match salt % 3 {
+        0 => Ciphertext::from_members(ct.size() + 1, k, n, (0..(ct.size() + 1) * k * n).map(|i| (i as u64 * 7919 + 13) & 0xF_FFFF).collect(), *ct.parms_id(), ct.scale() * 3.0, ct.correction_factor() + 2, ct.is_ntt_form()),
+        1 => Ciphertext::from_members(ct.size(), k, n, (0..ct.size() * k * n).map(|i| (i as u64 * 104729 + 5) & 0xF_FFFF).collect(), *ct.parms_id(), ct.scale() * 0.5, ct.correction_factor() + 5, !ct.is_ntt_form()),
+        _ => Ciphertext::new(),
+    }
+}
